@@ -115,6 +115,8 @@ pub fn gen(seed: u64, _idx: u64, tier: Tier) -> Scenario {
     // slow reader: the client reads at most this many bytes per server turn and does not read while the server is inside a turn
     let slow = if buf > 0 && r.chance(1, 2) { *r.pick(&[64i64, 512, 4096]) } else { 0 };
     sc.knobs.insert("slow".into(), slow);
+    let syscall_faults = r.chance(1, 3);
+    sc.knobs.insert("syscall_faults".into(), syscall_faults as i64);
     let style = r.below(6); // 0 whole, 1 random chunks, 2 one byte at a time, 3 frame aligned, 4 around 8192, 5 tiny random
     // fixture keys used by the error catalogue (never modified afterwards)
     sc.steps.push(Step::Connect { c: 9, inst: 0, buf: 0 });
@@ -181,6 +183,13 @@ pub fn gen(seed: u64, _idx: u64, tier: Tier) -> Scenario {
         }.max(1).min(rem);
         // one-byte style on a long stream is capped: after 400 bytes deliver the rest in chunks
         let n = if style == 2 && pos[c] > 400 { rem.min(997) } else { n };
+        // transient system-call outcomes on this connection's socket: an interrupted or spuriously empty
+        // read / write, or one that transfers only a few bytes - none of them may change the reply stream
+        if syscall_faults && r.chance(1, 6) {
+            let fop = if r.chance(2, 3) { crate::world::Op::Recv } else { crate::world::Op::Send };
+            let action = match r.below(4) { 0 => crate::world::Action::Errno(libc::EINTR), 1 => crate::world::Action::Errno(libc::EAGAIN), 2 => crate::world::Action::Short(1), _ => crate::world::Action::Short(*r.pick(&[2usize, 7, 100])) };
+            sc.steps.push(Step::Arm { fop, conn: Some(c), class: None, nth: r.below(3), action, inst: 0 });
+        }
         sc.steps.push(Step::Ctl { name: "flow".into(), n: (c as i64) * 100_000_000 + n as i64, a: vec![] });
         pos[c] += n;
         // the client stops sending and waits: everything delivered completely so far must be answered
@@ -213,6 +222,7 @@ pub fn exec(sc: &Scenario) -> Outcome {
         if h.dead.is_some() { break; }
         match st {
             Step::Connect { c, inst, buf } => { h.connect(*c, *inst, *buf); }
+            Step::Arm { fop, conn, nth, action, .. } => { if let Some(ci) = conn.and_then(|c| h.cl(c)) { let inst = h.inst; h.sim.arm(inst, *fop, Some(ci), None, *nth, *action); h.count("syscall_faults_armed", 1); } }
             Step::Cmd { c, a, split } => { if let Some(ci) = h.cl(*c) { let r = h.cmd(ci, &args_of(a), split); if r.reply.is_none() { h.violate("C05/fixture-no-reply".into(), show_cmd(&args_of(a))); } } }
             Step::Ctl { name, n, .. } if name == "flow" => {
                 if slow > 0 { h.read_limit = Some(slow as usize); }
@@ -331,7 +341,7 @@ fn viol_name(bytes: &[u8]) -> String { bytes.iter().take(6).map(|b| if b.is_asci
 pub static DEF: CheckDef = CheckDef {
     id: "C05", level: "exploration", gen, exec,
     nontrivial: |o| o.counters.get("requests").copied().unwrap_or(0) >= 3 && o.counters.get("segments").copied().unwrap_or(0) >= 1,
-    rule: "one run = 1-3 connections each pipelining 1-200 requests from a catalogue of valid commands of every family, refused commands (unknown, wrong arity, wrong type, bad argument, missing key, CR/LF in command names and arguments, binary), unique ECHO sentinels, optionally ending in a protocol-violating frame; the request byte streams are delivered under one of six segmentation styles (whole, random chunks, one byte at a time, frame-aligned, around the 8192-byte read boundary, tiny chunks), interleaved between connections by the schedule stream, optionally over small socket buffers; oracle: the bytes received by each client, decoded by the independent RESP reader, are exactly one well-formed reply per request, in order, of the expected kind (error / non-error / exact sentinel), nothing surplus, an error after a protocol violation; non-trivial = at least 3 requests; distinct = distinct event-log hash",
+    rule: "one run = 1-3 connections each pipelining 1-200 requests from a catalogue of valid commands of every family, refused commands (unknown, wrong arity, wrong type, bad argument, missing key, CR/LF in command names and arguments, binary), unique ECHO sentinels, optionally ending in a protocol-violating frame; the request byte streams are delivered under one of six segmentation styles (whole, random chunks, one byte at a time, frame-aligned, around the 8192-byte read boundary, tiny chunks), interleaved between connections by the schedule stream, optionally over small socket buffers; oracle: the bytes received by each client, decoded by the independent RESP reader, are exactly one well-formed reply per request, in order, of the expected kind (error / non-error / exact sentinel), nothing surplus, an error after a protocol violation; non-trivial = at least 3 requests; distinct = distinct event-log hash; in a third of the runs single reads / writes on a connection's socket are additionally made to fail with EINTR or EAGAIN or to transfer only 1..100 bytes (fault injection at the libc boundary) - transient outcomes that must not change the reply stream",
     quick_budget_s: 40.0, thorough_budget_s: 900.0, quick_max_runs: 1_000_000, thorough_max_runs: 100_000_000, exhaustive: false, exhaustive_after: |_| 0,
     real: REAL_WHOLE_SERVER, stub: STUB_WHOLE_SERVER, assumptions: ASSUME_COMMON,
 };
